@@ -346,6 +346,9 @@ vm_harness! {
         let v = sym_val(ValueTag::Int);
         chan_ref(inner).data.lock().unwrap().push_back(ChannelValue::Scalar(v));
         let cv = ChannelValue::from_value(inner, &mut w);
+        // ownership: what is in flight holds the queue itself (a strong reference next to the task's own), so the queue and its contents
+        // do not depend on any task-side handle staying around
+        assert!(Arc::strong_count(&chan_ref(inner).data) == 2, "the handle in flight owns the inner channel's queue");
         // the writing task goes away: releasing its channel object drops the task's handle (what ObjectHeader::dealloc does for this kind)
         unsafe { std::ptr::drop_in_place(&mut (*(inner.0 as *mut ChannelObject)).data); }
         let got = match cv {
